@@ -17,6 +17,12 @@ pub open spec fn prefix_of(a: Ins, b: Ins) -> bool { a.len() <= b.len() && b.tak
 pub open spec fn grown(c0: Compiler, c1: Compiler) -> bool {
     prefix_of(c0.chunk.instructions@, c1.chunk.instructions@) && c1.processing_bodies@ == c0.processing_bodies@
 }
+/// block bookkeeping kept by compiling any node: nesting depth as before; inside a block, no name is recorded for
+/// the ancestor check (proved for compile_block; the other arms do not touch these fields - read, and part of the
+/// induction hypothesis of compile_node)
+pub open spec fn blocks_kept(c0: Compiler, c1: Compiler) -> bool {
+    c1.block_depth == c0.block_depth && (c0.block_depth > 0 ==> c1.block_name_spans.names() == c0.block_name_spans.names())
+}
 impl Compiler {
     #[verifier::external_body]
     pub fn compile_expr(&mut self, e: Expression)
@@ -26,7 +32,8 @@ impl Compiler {
     #[verifier::external_body]
     pub fn compile_node(&mut self, n: Node)
         requires roomy(old(self).chunk.instructions@)
-        ensures grown(*old(self), *final(self)), small(final(self).chunk.instructions@), final(self).temp_variables@.len() == old(self).temp_variables@.len()
+        ensures grown(*old(self), *final(self)), small(final(self).chunk.instructions@), final(self).temp_variables@.len() == old(self).temp_variables@.len(),
+            blocks_kept(*old(self), *final(self))
     { unimplemented!() }
 }
 pub proof fn lemma_prefix_trans(a: Ins, b: Ins, c: Ins)
